@@ -197,7 +197,17 @@ func Run(seed int64, tier, out string) {
 				What:   fmt.Sprintf("Equal says %v but encodings equal is %v", eq, encEq),
 				Replay: map[string]string{"a": cv.State(a), "b": cv.State(b)}})
 		}
-		// signatures: sig of acc0 over a verifies for b iff encodings equal; never for acc1
+		// signatures: sig of acc0 over a verifies for b iff encodings equal; never for acc1.
+		// Every fourth time a Sign and a Verify that must fail (a state that cannot be encoded) come
+		// first: what they leave behind must not show in the calls that follow.
+		if k%4 == 1 {
+			bad := a.Clone()
+			bad.Balances[0][0] = big.NewInt(-1)
+			if _, err := channel.Sign(acc0, bad, 0); err == nil {
+				res.Fail(hx.Failure{Site: "channel.Sign", InputClass: "unencodable", Case: idx, What: "a state with a negative balance was signed"})
+			}
+			_, _ = channel.Verify(acc0.Address(), bad, make([]byte, 64))
+		}
 		if oka && okb {
 			sig, err := channel.Sign(acc0, a, 0)
 			if err == nil {
